@@ -76,9 +76,33 @@ Definition valid_stage1 (cfg : config) (cs cert : list N) : bool :=
   match gen_index cs with Some _ => true | None => false end.
 
 (* C10 *)
-Definition spec10_step (cfg : config) (forged : list N) (o : hop) (outs : list out) (p d : hstate) : bool :=
+(* [born]: for every tunnel the responder created in this history, the peer-reported time of the stage 1 that
+   created it - taken from the operation (the harness's input), not from what the implementation stored *)
+Definition spec10_step (cfg : config) (forged : list N) (born : amap N) (o : hop) (outs : list out) (p d : hstate) : bool :=
   match o with
   | RespStage1 pkt cs ridx t cert v =>
+      (* a tunnel created by this stage 1 stores exactly the peer-reported time, whatever its value (also beyond the
+         responder's own clock) *)
+      forallb (fun h => mem h (live_ids p) || ((x_time (hx_of d h) =? t) && negb (x_init (hx_of d h)))) (live_ids d) &&
+      (* not newer than the peer-reported time of the handshake that created the primary this node holds as
+         responder: no tunnel created, no map and no primary changed, no fresh stage 2 (only a resend of a tunnel
+         already held) *)
+      match cert with
+      | a0 :: _ =>
+          match mget a0 (hosts (hm p)) with
+          | Some e =>
+              match mget e born with
+              | Some te =>
+                  if valid_stage1 cfg cs cert && (t <=? te) then
+                    maps_eqb (hm p) (hm d) && infos_same p d &&
+                    forallb (fun o => match o with OStage2 x _ => mem x (live_ids p) | _ => true end) outs
+                  else true
+              | None => true
+              end
+          | None => true
+          end
+      | [] => true
+      end &&
       (* the reading "a replayed - possibly altered - first message never replaces the primary": an altered copy of
          a captured stage 1 creates nothing and changes no map.  The code does not satisfy it (the first IX message is
          not authenticated when the responder acts on it): known finding F27 *)
@@ -163,7 +187,15 @@ Definition spec09_step (cfg : config) (o : hop) (outs : list out) (p d : hstate)
 
 (* ---- walking a history ------------------------------------------------------------------------------ *)
 
-Record wstate := mkW { w_model : hstate; w_prev : hstate }.
+Record wstate := mkW { w_model : hstate; w_prev : hstate; w_born : amap N }.
+
+(* tunnels that entered Indexes in a stage-1 step: remember the peer-reported time of that stage 1 *)
+Definition born_step (o : hop) (p d : hstate) (born : amap N) : amap N :=
+  match o with
+  | RespStage1 _ _ _ t _ _ =>
+      fold_left (fun m h => if mem h (live_ids p) then m else mset h t m) (live_ids d) born
+  | _ => born
+  end.
 
 Definition walk_step (which : N) (cfg : config) (forged : list N) (w : wstate) (b : hobs) : wstate * list N :=
   let (m', om) := hstep cfg (b_op b) (w_model w) in
@@ -171,8 +203,8 @@ Definition walk_step (which : N) (cfg : config) (forged : list N) (w : wstate) (
   let d := dump_of p b in
   let e1 := flag 1 (outs_eqb om (b_outs b) && obs_eqb m' d) in
   let e2 := flag 2 (if which =? 9 then spec09_step cfg (b_op b) (b_outs b) p d
-                    else spec10_step cfg forged (b_op b) (b_outs b) p d) in
-  (mkW m' d, e1 ++ e2).
+                    else spec10_step cfg forged (w_born w) (b_op b) (b_outs b) p d) in
+  (mkW m' d (born_step (b_op b) p d (w_born w)), e1 ++ e2).
 
 Fixpoint walk (which : N) (cfg : config) (forged : list N) (w : wstate) (l : list hobs) (final : HostMap.state) : list N :=
   match l with
@@ -185,8 +217,8 @@ Definition dedup_codes (l : list N) : list N :=
 
 Definition check_with (which : N) (c : case) : list N :=
   match c with
-  | CHs cfg l f => dedup_codes (walk which cfg [] (mkW hinit hinit) l f)
-  | CHsF cfg forged l f => dedup_codes (walk which cfg forged (mkW hinit hinit) l f)
+  | CHs cfg l f => dedup_codes (walk which cfg [] (mkW hinit hinit []) l f)
+  | CHsF cfg forged l f => dedup_codes (walk which cfg forged (mkW hinit hinit []) l f)
   end.
 
 Definition check_case09 : case -> list N := check_with 9.
